@@ -9,6 +9,10 @@ class Contract(object):
     uses = ()                # callee contracts used instead of bodies
     bound_names = ()         # names of symbolic lengths, enumerated in bounded mode
     max_paths = 400
+    bounded_clauses = ()     # names of post clauses that are NOT proved symbolically: they are carried by the bounded
+                             # stand-in only (native enumeration over a stated family).  The symbolic engine never
+                             # evaluates them, callers that use this contract as a stub never assume them, and they are
+                             # reported separately from the discharged obligations.  Yield them as (name, lambda: formula).
     chain_post = False       # True: a post clause discharged on a path is available as a fact to the LATER clauses of
                              # that path (lemma first, corollaries after).  Sound: it is only added once proved, under
                              # the same assumptions.  Never applies to canaries or to clauses that were not discharged.
@@ -26,7 +30,9 @@ class Contract(object):
         return ()
 
     def raises(self, S, case, env):
-        """{ExceptionType: condition under which exactly this exception must be raised}"""
+        """{ExceptionType: condition}: the exception is raised if and only if the condition holds.
+        A condition may also be a pair (must, may): raising is REQUIRED where `must` holds, ALLOWED where `may` holds
+        (must => may), and forbidden elsewhere -- for corners the property statement leaves open."""
         return {}
 
     def post_exc(self, S, case, env, exc):
